@@ -400,6 +400,33 @@ func raceStock(h *raceH, p *prng, rounds int, dir string, withEnc bool) {
 		wg.Wait()
 		gf.FlushAll(context.Background())
 		close(ch)
+		// a channel sink whose consumer has stalled, shared by overlapping senders: each of them gets its own
+		// bounded wait (an error after the timeout), none is left waiting for another one's timer
+		{
+			stalled := make(chan *eventlogger.Event)
+			cs2, _ := channel.NewChannelSink(stalled, 30*time.Millisecond)
+			nC := 2 + p.intn(3)
+			done := make(chan error, nC)
+			for k := 0; k < nC; k++ {
+				go func(k int) {
+					time.Sleep(time.Duration(k*8) * time.Millisecond)
+					_, err := cs2.Process(context.Background(), &eventlogger.Event{Type: "t"})
+					done <- err
+				}(k)
+			}
+			deadline := time.After(2 * time.Second)
+			for k := 0; k < nC; k++ {
+				select {
+				case err := <-done:
+					if err == nil {
+						h.oracle("C19 ChannelSink shared by %d senders: Process reported success although nobody receives", nC)
+					}
+				case <-deadline:
+					h.oracle("C19 ChannelSink shared by %d overlapping senders with a stalled consumer (timeout 30ms): only %d of them returned within 2s, the rest is blocked for ever", nC, k)
+					k = nC
+				}
+			}
+		}
 		os.Stderr, os.Stdout = savedErr, savedOut
 		for _, x := range []struct {
 			name string
